@@ -10,14 +10,15 @@
 package main
 
 import (
-	"sync"
 	"bytes"
 	"encoding/json"
 	"fmt"
 	"math/rand"
+	"net/netip"
 	"os"
 	"sort"
 	"strings"
+	"sync"
 	"time"
 
 	"github.com/mycoria/mycoria/config"
@@ -208,6 +209,7 @@ func (r *runner) run(plan []fault, dir string, n int, sizes []int, garbageLen in
 		}
 		break
 	}
+	dirty := len(plan) == 0 || r.rng.Intn(3) == 0
 	var sent [][]byte
 	var payloads [][]byte
 	bigMode := false
@@ -235,6 +237,21 @@ func (r *runner) run(plan []fault, dir string, n int, sizes []int, garbageLen in
 				apx = make([]byte, 10000)
 			}
 			r.rng.Read(apx)
+		}
+		if dirty && !filler {
+			// history on the RECEIVER: frame constructions that are refused (oversized message), on enough goroutines
+			// that every scheduler slot has seen one - the link reader parses its next frame into whatever the pool holds
+			var wg sync.WaitGroup
+			for g := 0; g < 48; g++ {
+				wg.Add(1)
+				go func() {
+					defer wg.Done()
+					if rf, err := to.Builder.NewFrameV1(netip.MustParseAddr("fd00:1111::1"), netip.MustParseAddr("fd00:2222::2"), frame.SessionData, nil, make([]byte, 10001), nil); err == nil {
+						rf.ReturnToPool()
+					}
+				}()
+			}
+			wg.Wait()
 		}
 		f, err := from.Builder.NewFrameV1(from.ID.IP, to.ID.IP, mt, nil, payload, apx)
 		if err != nil {
@@ -324,6 +341,10 @@ func (r *runner) run(plan []fault, dir string, n int, sizes []int, garbageLen in
 		drain.WaitN(len(sent)-len(touched), 400*time.Millisecond)
 	}
 	got := drain.Take()
+	for _, mm := range drain.TakeMismatches() {
+		// what the handler sees IS the delivered frame: stale accessors make it another frame
+		events = append(events, map[string]any{"ev": "delivered", "id": 0, "identical": false, "note": mm})
+	}
 	for _, g := range got {
 		id := 0
 		for i, s := range sent {
@@ -456,9 +477,10 @@ func run(c *vf.Ctx) {
 	var descs []map[string]any
 	var starts []int
 	scaleOf := 1
+	nFrames := 4
 	runOne := func(pl []fault, dir string, glen int, sizes []int) {
 		t0 := time.Now()
-		ev, desc := r.run(pl, dir, 4, sizes, glen, scaleOf)
+		ev, desc := r.run(pl, dir, nFrames, sizes, glen, scaleOf)
 		if d := time.Since(t0); d > 2*time.Second || os.Getenv("VERIF_C05_DEBUG") != "" {
 			c.Logf("link %v dir=%s glen=%d took %v: %v", pl, dir, glen, d.Round(time.Millisecond), ev[len(ev)-1])
 		}
@@ -481,6 +503,18 @@ func run(c *vf.Ctx) {
 		if i < 2 {
 			c.Sample(descs[len(descs)-1])
 		}
+	}
+	// undisturbed links carrying every frame length around the reader's buffer sizes (600, 1600, 5100, 9600 bytes on
+	// the wire): payload lengths T-140..T-20 cover the exact fit for every message type (header, MAC or signature,
+	// link frame header and MAC add 44..139 bytes); every frame must arrive
+	for ti, T := range []int{600, 1600, 5100, 9600} {
+		var exact []int
+		for p := T - 140; p <= T-20; p++ {
+			exact = append(exact, p)
+		}
+		nFrames = len(exact)
+		runOne(nil, []string{"A", "B"}[ti%2], 28, exact)
+		nFrames = 4
 	}
 	// well-framed garbage of every short length, on its own
 	for _, gl := range []int{4, 5, 8, 11, 12, 13, 27, 28, 29, 64} {
